@@ -261,6 +261,11 @@ def fuzz_main(case):
                     stats["evaluated_clauses"] += 1
                     if v is False:
                         violated.append(e)
+            if violated and any(native_eval.eval_clause(k, old_env, None, c.model, None, natives, tol=0) is True
+                                for k in case.get("known_classes", [])):
+                # an input of a recorded known-finding class: reported by the deductive side, keep searching outside it
+                stats["known_class_inputs"] = stats.get("known_class_inputs", 0) + 1
+                violated = []
             if violated:
                 found = {"inputs": shown, "globals": shown_globals, "draws": [repr(d) for d in draws],
                          "result": _describe(result), "raised": raised, "violated": violated}
@@ -324,12 +329,13 @@ def fuzz_c(c, case, natives):
     return {"stats": stats, "found": found}
 
 
-def run_fuzz(key, sidecars, seed=0, n=3000, seconds=10, repo=None):
+def run_fuzz(key, sidecars, seed=0, n=3000, seconds=10, repo=None, known_classes=()):
     env = dict(os.environ)
     root = os.path.dirname(os.path.dirname(os.path.abspath(__file__)))
     env["PYTHONPATH"] = "%s:%s" % (repo or loader.REPO, root)
     env["VERIF_REPO"] = repo or loader.REPO
-    case = {"key": key, "sidecars": sidecars, "seed": seed, "n": n, "seconds": seconds}
+    case = {"key": key, "sidecars": sidecars, "seed": seed, "n": n, "seconds": seconds,
+            "known_classes": list(known_classes)}
     try:
         p = subprocess.run([sys.executable, "-m", "pyvc.fuzz"], input=json.dumps(case), capture_output=True, text=True,
                            env=env, timeout=seconds + 60, cwd=root)
